@@ -433,6 +433,13 @@ def run_case(case, ctx):
                     if m:
                         seen.add(trees.norm_path(m.group(1), root))
                 judge(seen, "lint-file")
+        # (c0) lint-file without any file examines nothing at all
+        r = run_cli(gopts + ["lint-file"], cwd=str(root))
+        res.cell("lint-file:no-arguments")
+        if r.escaped or r.exit_code not in (0, 2):
+            res.violation("lint-file-without-files", f"lint-file without files: exit {r.exit_code} {r.exc_type}", tb=r.exc_tb, **r.brief())
+        elif re.search(r": (no license identifier|no copyright notice|read error|missing license \S+)$", r.stdout, re.M):
+            res.violation("lint-file-without-files", "lint-file without files reported files: " + repr(r.stdout[:300]))
         # (c2) the same from a sub directory, files named relative to it, --root spelled relatively as well
         subdirs = sorted({os.path.dirname(p) for p in covered if os.path.dirname(p)})
         if everything and subdirs:
